@@ -26,6 +26,8 @@ RULES = {
               "read from _par, and climbs to the parent; no code outside the class touches the private tables",
     "C20-U3": "element collections (self._elts / self._indx and values derived from them) never flow into numpy (np.array, np.vectorize, ...): "
               "tuples become rows, mixed types are coerced",
+    "C20-V1": "component / roots / components / component_mapping enumerate every element of self._elts, classify it by self.find(element), "
+              "collect the element itself unconditionally; component keeps exactly the elements whose root equals find(x)",
     "C20-O1": "__getitem__/__setitem__ raise exactly when index < 0 or index >= _next",
     "C20-Q1": "PriorityQueue.data is written only by heapq.heappush/heappop inside the class and never escapes; push builds PriorityItem(payload, priority) "
               "in field order; front reads data[0]; PriorityItem.__lt__ compares priority only; empty() is len == 0",
@@ -50,7 +52,8 @@ def run(ctx):
     u1_add(ctx)
     u1_union(ctx)
     u2_queries(ctx)
-    u3_numpy(ctx)
+    routed = u3_numpy(ctx)
+    v1_views(ctx, routed)
     o1_bounds(ctx)
     q1_queue(ctx)
     sweeps(ctx)
@@ -408,8 +411,9 @@ def u2_find(ctx, fn, ws, mut_calls, self_store):
                     if isinstance(me, ast.Name) and me.id == p:
                         if au.src(oth) == f"self._par[{p}]":
                             guard_ok = True
-                        elif isinstance(oth, ast.Name) and oth.id != p and parent_read(oth):
-                            guard_ok = True
+                        elif isinstance(oth, ast.Name) and oth.id != p and parent_read(oth) \
+                                and U.bindings_of(fn, p, within=w) and not U.bindings_of(fn, oth.id, within=w):
+                            guard_ok = True         # `while p != root` with p climbing and root fixed
             # p must not be re-bound between the loop test and the store
             rebind = [s for s, v, i in U.bindings_of(fn, p, within=w) if pos(s) < pos(st)]
             val_ok = parent_read(st.value)
@@ -429,19 +433,22 @@ def u2_find(ctx, fn, ws, mut_calls, self_store):
         r = rets[0].value.id
         for w in whiles:
             test, pol = U.strip_not(w.test, True)
-            if isinstance(test, ast.Compare) and r in au.names(test) and isinstance(test.ops[0], (ast.NotEq, ast.Eq)):
-                climbs = [v for s, v, i in U.bindings_of(fn, r, within=w)]
-                outside = [v for s, v, i in U.bindings_of(fn, r) if not any(s is x for x in au.stmts(w.body))]
-                ok = bool(climbs) and all(parent_read(v) for v in climbs) and pos(rets[0]) > pos(w) \
-                    and any(rets[0] is s for s in fn.body) \
-                    and all(isinstance(v, ast.Subscript) and au.is_self_attr(v.value, "_indx") or parent_read(v) or isinstance(v, ast.Name)
-                            for v in outside) and \
-                    au.src(test) in (f"{r} != self._par[{r}]", f"self._par[{r}] != {r}") and pol
+            if not (pol and au.src(test) in (f"{r} != self._par[{r}]", f"self._par[{r}] != {r}")):
+                continue
+            climbs = [v for s, v, i in U.bindings_of(fn, r, within=w)]
+            outside = [v for s, v, i in U.bindings_of(fn, r) if not any(s is x for x in au.stmts(w.body))]
+            if bool(climbs) and all(parent_read(v) for v in climbs) and pos(rets[0]) > pos(w) \
+                    and any(rets[0] is s for s in fn.body) and any(w is s for s in fn.body) \
+                    and all(isinstance(v, ast.Subscript) and au.is_self_attr(v.value, "_indx") for v in outside):
+                ok = True
+    recursive = [c for c in au.calls(fn) if isinstance(c.func, ast.Attribute) and au.is_self_attr(c.func, "find")]
+    if not whiles and recursive:
+        ctx.declare_unsupported("C20-U2: recursive UnionFind.find - the climb to the fixed point of _par is not decided")
+        return
     ctx.check(ok, "C20-U2", site,
               "find is not `p = _indx[x]; while p != _par[p]: ... p = <parent of p>; return p`",
               "find must return the root: the loop may only stop at a fixed point of _par and must climb to a parent at every turn",
               note="find climbs to the fixed point of _par")
-    ctx.require_count("C20-U2 path-compression stores in find", len(stores), 1)
 
 
 # ----------------------------------------------------------------- C20-U3
@@ -519,6 +526,7 @@ def u3_numpy(ctx):
     np_al = U.numpy_aliases(mod) | {"np", "numpy"}
     methods = {st.name for st in cls.body if isinstance(st, ast.FunctionDef)}
     n = 0
+    routed = set()
     for st in cls.body:
         if not isinstance(st, ast.FunctionDef):
             continue
@@ -527,6 +535,8 @@ def u3_numpy(ctx):
         if not reads and not hits:
             continue
         n += 1
+        if hits:
+            routed.add(st.name)
         ctx.check(not hits, "C20-U3", ctx.site(UF, st, hits[0][0] if hits else st),
                   f"{st.name} routes the elements through numpy",
                   "np.array turns a list of tuples into a 2-D array (each element becomes a row, `find` then raises "
@@ -534,6 +544,103 @@ def u3_numpy(ctx):
                   "offending calls: " + "; ".join(d for _, d in hits),
                   note=f"{st.name}: elements stay python objects")
     ctx.require_count("C20-U3 methods reading the element tables", n, 8)
+    return routed
+
+
+# ----------------------------------------------------------------- C20-V1
+def v1_views(ctx, routed):
+    """the four partition views (skipped for a method that C20-U3 already reports: its numpy form is not a per-element loop)."""
+    repo = ctx.repo
+    n = 0
+
+    def is_elts(e):
+        return au.is_self_attr(e, "_elts") or au.is_self_attr(e, "_indx") or \
+            (isinstance(e, ast.Call) and not e.args and isinstance(e.func, ast.Attribute) and e.func.attr == "keys"
+             and au.is_self_attr(e.func.value, "_indx"))
+
+    def find_of(e, var):
+        return isinstance(e, ast.Call) and isinstance(e.func, ast.Attribute) and au.is_self_attr(e.func, "find") \
+            and len(e.args) == 1 and isinstance(e.args[0], ast.Name) and e.args[0].id == var
+
+    for name in ("component", "roots", "components", "component_mapping"):
+        fn = repo.func(UF, f"{UFC}.{name}")
+        if name in routed:
+            continue
+        site = ctx.site(UF, fn)
+        b = sym.Bindings(fn)
+        n += 1
+        scopes = []     # (variable, [nodes in which it is live], owner, generator or None)
+        for x in au.walk(fn):
+            if isinstance(x, ast.For) and is_elts(x.iter) and isinstance(x.target, ast.Name):
+                scopes.append((x.target.id, list(x.body), x, None))
+            elif isinstance(x, (ast.ListComp, ast.SetComp, ast.GeneratorExp, ast.DictComp)):
+                for g in x.generators:
+                    if is_elts(g.iter) and isinstance(g.target, ast.Name):
+                        live = ([x.key, x.value] if isinstance(x, ast.DictComp) else [x.elt]) + list(g.ifs)
+                        scopes.append((g.target.id, live, x, g))
+        classified = [(v, live, o, g) for v, live, o, g in scopes if any(find_of(c, v) for l in live for c in au.calls(l))]
+        ok = bool(classified)
+        ctx.check(ok, "C20-V1", site, f"{name} does not visit every element of self._elts and classify it with self.find(element)",
+                  "the view must describe the same partition as find: every element belongs to exactly one reported component",
+                  note=f"{name}: loop over self._elts classified by find")
+        if not ok:
+            continue
+        var, live, owner, gen = classified[0]
+        if name == "component":
+            ps = au.params(fn, skip_self=True)
+            cmps = [c for l in live for c in au.walk(l) if isinstance(c, ast.Compare) and len(c.ops) == 1
+                    and (find_of(c.left, var) or find_of(c.comparators[0], var))]
+            okc = False
+            if len(cmps) == 1 and ps:
+                c = cmps[0]
+                other = c.comparators[0] if find_of(c.left, var) else c.left
+                o = b.resolve(other, at=owner, keep=(ps[0],))
+                positive = (gen is not None and any(c is t for t in gen.ifs) and au.src(owner.elt) == var) or \
+                           (gen is None and any(isinstance(s_, ast.If) and s_.test is c and not s_.orelse and
+                                                any(au.call_tail(k) in ("add", "append") and au.src(k.args[0]) == var for k in au.calls(s_) if k.args)
+                                                for s_ in owner.body))
+                okc = isinstance(c.ops[0], ast.Eq) and au.src(o) == f"self.find({ps[0]})" and positive
+            ctx.check(okc, "C20-V1", site, f"component({ps[0] if ps else 'x'}) does not keep exactly the elements e with self.find(e) == self.find({ps[0] if ps else 'x'})",
+                      "the component of x is the set of elements sharing x's root", note="component filters on find(e) == find(x)")
+        if name in ("components", "component_mapping") and isinstance(owner, ast.For):
+            adds = [k for k in au.calls(owner) if au.call_tail(k) in ("add", "append") and len(k.args) == 1]
+            okc = len(adds) == 1 and au.src(adds[0].args[0]) == var and not au.guards(adds[0], stop=owner)
+            if okc:
+                recv = adds[0].func.value
+                recv = b.resolve(recv, at=adds[0], keep=(var,)) if not isinstance(recv, ast.Call) else recv
+                keyed = [c for c in au.walk(recv) if find_of(c, var)]
+                idx_names = au.names(recv)
+                okc = bool(keyed) or any(find_of(c, var) for nme in idx_names for s_, v_, i_ in U.bindings_of(fn, nme, within=owner)
+                                         for c in au.walk(v_))
+            ctx.check(okc, "C20-V1", ctx.site(UF, fn, owner),
+                      f"{name} does not put every element, unconditionally, into the group selected by self.find(element)",
+                      "an element that is skipped or filed under another root makes the listing disagree with connected()",
+                      note=f"{name}: element filed under find(element)")
+        if name == "components":
+            # root -> position table built from enumerate(roots): key must be the root, value the position
+            for x in au.walk(fn):
+                elt = None
+                if isinstance(x, ast.Call) and au.call_tail(x) == "dict" and len(x.args) == 1 and isinstance(x.args[0], (ast.GeneratorExp, ast.ListComp)) \
+                        and isinstance(x.args[0].elt, ast.Tuple) and len(x.args[0].elt.elts) == 2:
+                    g, (kx, vx) = x.args[0].generators[0], x.args[0].elt.elts
+                elif isinstance(x, ast.DictComp):
+                    g, kx, vx = x.generators[0], x.key, x.value
+                else:
+                    continue
+                if isinstance(g.iter, ast.Call) and au.call_tail(g.iter) == "enumerate" and isinstance(g.target, ast.Tuple) and len(g.target.elts) == 2:
+                    i_, r_ = (au.src(t) for t in g.target.elts)
+                    ctx.check(au.src(kx) == r_ and au.src(vx) == i_, "C20-V1", ctx.site(UF, fn, x),
+                              "the root -> slot table of components maps positions to roots instead of roots to positions",
+                              "elements are filed under table[find(e)]", note="root -> slot table orientation")
+        if name == "component_mapping":
+            for x in au.walk(fn):
+                if isinstance(x, ast.DictComp) and len(x.generators) == 1 and isinstance(x.generators[0].target, ast.Name) \
+                        and isinstance(x.generators[0].iter, ast.Name):
+                    g = x.generators[0]
+                    ctx.check(au.src(x.key) == g.target.id and au.src(x.value) == g.iter.id and not g.ifs, "C20-V1", ctx.site(UF, fn, x),
+                              f"component_mapping builds `{au.src(x)}`: not every member of a component mapped to that component",
+                              "elt -> component containing elt", note="every member mapped to its own component")
+    ctx.require_count("C20-V1 partition views analysed", n, 2)
 
 
 # ----------------------------------------------------------------- C20-O1
@@ -548,6 +655,7 @@ def o1_bounds(ctx):
         guards_ = [st for st in fn.body if isinstance(st, ast.If) and U._always_leaves(st.body) and
                    any(isinstance(x, ast.Raise) for x in au.stmts(st.body)) and not st.orelse]
         if len(guards_) != 1 or idx is None:
+            n += 1
             ctx.fail("C20-O1", site, f"bounds check (`if <out of range>: raise IndexError`) not found in {name}",
                      "an invalid index must raise IndexError (negative indices would silently address the list from its end)")
             continue
